@@ -200,7 +200,16 @@ impl Recorder {
     }
 
     pub fn print(&mut self, bidx: usize, b: &DispatcherBuilder<'static, 'static>) {
-        let res = catch_unwind(AssertUnwindSafe(|| format!("{:?}", b)));
+        // `print_par_seq` uses the pretty form: both must be the same text
+        let res = catch_unwind(AssertUnwindSafe(|| {
+            let a = format!("{:?}", b);
+            let p = format!("{:#?}", b);
+            if a == p {
+                a
+            } else {
+                format!("<<Debug and pretty Debug differ>>\n{}\n{}", a, p)
+            }
+        }));
         match res {
             Ok(text) => match parse_par_seq(&text) {
                 Some(t) => self.events.push(json!({"ev":"print","b":bidx,"out":"ok","text":t})),
